@@ -12,6 +12,7 @@ Property theorems only; helper lemmas live in `Gsu/Proofs/Pack.lean`. The defini
 -/
 import Gsu.Proofs.Pack
 import Gsu.Proofs.PackUnpack
+import Gsu.Proofs.PackRound
 import Gsu.Gen.Pack
 namespace Gsu.Props.C13
 open Gsu.Proto Gsu.Pack
@@ -138,17 +139,14 @@ theorem timestamp_order (d1 t1 x1 d2 t2 x2 : Nat) (h1 : d1 < 4294967296) (h2 : t
     simp [cmpDT, cmpNat, cmpB, this]
 
 /-! ## round trip and canonical form of numbers
-FULL statements not (yet) proved for all inputs — the model is tied to the code by replay and by
-the direct oracles `rt-*`, `canon-*` over every representation and the boundary values:
-  packInt_unpack  : -2^63 ≤ n → n < 2^63 → unpackNumber (packInt n) = .int n
-  packDnum_unpack : d.Norm → unpackNumber (packDnum d) = .dnum d ∨
-                      ∃ n, unpackNumber (packDnum d) = .int n ∧ n.natAbs * 10^16 = d.coef * 10^d.exp.toNat
-                        ∧ (n < 0 ↔ d.sign < 0)          -- an integer-valued dnum comes back as the equal int
+Proved in full (developments in `Gsu/Proofs/PackDigits.lean`, `PackUnpack.lean`, `PackInt.lean`,
+`PackRound.lean`): `pack_canonical`, `packInt_unpack` (every int64), `packDnum_unpack` (every
+normalised finite number: itself, or the int64 of equal value exactly on `intable`'s path),
+`packDnum_unpack_exact` (exactly when which), `number_roundtrip` (through `Unpack`'s tag
+dispatch), `packDnum_unpack_bigexp`.
+Not (yet) a theorem here — tied by replay and by the direct oracles `rt-*` over nested values:
   container_roundtrip : unpackObj (packObj tag list named) = some (list, named)
-Proved in full: `pack_canonical`, `packDnum_unpack_bigexp`; proved in part: `packDnum_unpack_partial`
-(what is missing: that the integer returned on the `intable` path has the value of `d`), and the
-boundary instances `packInt_unpack_partial` (missing: `unpackIntU` arithmetic and `intable`'s range
-test for all int64; the digit lemmas `digits10_spec`, `intPairs_facts` they need are proved). -/
+(`container_roundtrip_partial` below is two decided instances). -/
 
 /-- Equal scalars, identical bytes: an integer of at most 16 digits packs to the same bytes as
 SuInt64 (`packInt`) and as smi / integer-valued SuDnum (`FromInt` + `SuDnum.Pack`). -/
@@ -159,12 +157,43 @@ theorem pack_canonical (n : Int) (h0 : n ≠ 0) (h : n.natAbs ≤ coefMax) :
 example : (-120000 : Int) ≠ 0 ∧ (-120000 : Int).natAbs ≤ coefMax ∧ packInt 0 = packDnum (fromInt 0) := by
   decide
 
-/-- A finite normalised number (any coefficient, any exponent, either sign) never unpacks as an
-infinity or an error: it comes back as exactly itself or as an integer.
-Missing for the full `packDnum_unpack`: the value of that integer. -/
-theorem packDnum_unpack_partial (d : Dnum) (h : d.Norm) :
-    unpackNumber (packDnum d) = .dnum d ∨ ∃ n, unpackNumber (packDnum d) = .int n :=
-  Gsu.Pack.unpack_packDnum d h
+/-- FULL round trip of `SuDnum.Pack` / `UnpackNumber`: a finite normalised number (any 16-digit
+coefficient, any int8 exponent, either sign) unpacks as exactly itself, or — on `intable`'s path:
+exponent 0…19, integer-valued, inside the int64 range — as the int64 `n` of equal value
+(`|n|·10^16 = coef·10^exp`, i.e. `n = ±0.coef·10^exp`, with the sign of `d`). It never unpacks as
+an infinity, an error, or a different number. -/
+theorem packDnum_unpack (d : Dnum) (h : d.Norm) :
+    unpackNumber (packDnum d) = .dnum d ∨
+      ∃ n : Int, unpackNumber (packDnum d) = .int n ∧ 0 ≤ d.exp ∧ d.exp ≤ 19 ∧
+        n.natAbs * 10 ^ 16 = d.coef * 10 ^ d.exp.toNat ∧ (n < 0 ↔ d.sign < 0) ∧
+        -9223372036854775808 ≤ n ∧ n ≤ 9223372036854775807 :=
+  Gsu.Pack.unpack_packDnum_full d h
+
+/-- EXACTLY when which: if the value of `d` is an integer `n` of the int64 range
+(`|n|·10^16 = coef·10^exp`, `exp ≥ 0`, same sign) then `d` unpacks as that integer; if there is no
+such integer it unpacks as exactly `d`. Together with `packDnum_unpack` this determines
+`UnpackNumber ∘ SuDnum.Pack` on every normalised finite number. -/
+theorem packDnum_unpack_exact (d : Dnum) (h : d.Norm) :
+    (∀ n : Int, -9223372036854775808 ≤ n → n ≤ 9223372036854775807 → 0 ≤ d.exp →
+      n.natAbs * 10 ^ 16 = d.coef * 10 ^ d.exp.toNat → (n < 0 ↔ d.sign < 0) →
+      unpackNumber (packDnum d) = .int n) ∧
+    ((¬ ∃ n : Int, -9223372036854775808 ≤ n ∧ n ≤ 9223372036854775807 ∧ 0 ≤ d.exp ∧
+        n.natAbs * 10 ^ 16 = d.coef * 10 ^ d.exp.toNat ∧ (n < 0 ↔ d.sign < 0)) →
+      unpackNumber (packDnum d) = .dnum d) :=
+  ⟨fun n h1 h2 he hv hs => Gsu.Pack.unpack_packDnum_int d h n h1 h2 he hv hs,
+   Gsu.Pack.unpack_packDnum_nonint d h⟩
+
+-- both hypotheses are satisfiable: -0.12e5 = -12000; 0.15e1 = 1.5 is not an integer
+example : (⟨-1, 1200000000000000, 5⟩ : Dnum).Norm ∧
+    (12000 : Nat) * 10 ^ 16 = 1200000000000000 * 10 ^ (5 : Int).toNat := by decide
+example : unpackNumber (packDnum ⟨1, 1500000000000000, 1⟩) = .dnum ⟨1, 1500000000000000, 1⟩ := by decide
+
+/-- Through the tag dispatch of `Unpack`: a packed int64 comes back as that integer, a packed
+normalised finite number as the number `packDnum_unpack` describes (never an error). -/
+theorem number_roundtrip (n : Int) (h1 : -9223372036854775808 ≤ n) (h2 : n ≤ 9223372036854775807)
+    (d : Dnum) (h : d.Norm) :
+    unpack (packInt n) = .num (.int n) ∧ unpack (packDnum d) = .num (unpackNumber (packDnum d)) :=
+  ⟨Gsu.Pack.unpack_packInt n h1 h2, Gsu.Pack.unpack_packDnum_num d h⟩
 
 /-- Full round trip for every finite number whose exponent is outside 0…19 (fractions < 0.1,
 magnitudes ≥ 1e19, in particular the extreme exponents −128 and +127). -/
@@ -174,12 +203,15 @@ theorem packDnum_unpack_bigexp (d : Dnum) (h : d.Norm) (he : d.exp < 0 ∨ 19 < 
 
 example : (⟨-1, 9999999999999999, 127⟩ : Dnum).Norm ∧ (19 : Int) < 127 := by decide
 
-theorem packInt_unpack_partial :
-    ∀ n ∈ ([0, 1, -1, 10, 99, 100, -32768, 32767, 32768, 1000000, 9999999999999999,
-      10000000000000000, -10000000000000001, 123456789012345678, 9223372036854775807,
-      -9223372036854775808, -9223372036854775807, -9223372036854775800, -9223372036854775000,
-      -9200000000000000000, 9223372036854775800] : List Int), unpackNumber (packInt n) = .int n := by
-  decide
+/-- FULL integer round trip: every int64 packed by `SuInt64.Pack` (`packInt`) unpacks through
+`UnpackNumber` (`intable` + `unpackInt`) as itself — including MinInt64, MaxInt64 and the numbers
+whose digit pairs are a proper prefix of MinInt64's (finding 26; `intable` is the repaired test). -/
+theorem packInt_unpack (n : Int) (h1 : -9223372036854775808 ≤ n) (h2 : n ≤ 9223372036854775807) :
+    unpackNumber (packInt n) = .int n :=
+  Gsu.Pack.packInt_unpack n h1 h2
+
+example : unpackNumber (packInt (-9223372036854775800)) = .int (-9223372036854775800) :=
+  packInt_unpack _ (by decide) (by decide)
 
 theorem packDnum_unpack_instances :
     unpackNumber (packDnum ⟨1, 1500000000000000, 1⟩) = .dnum ⟨1, 1500000000000000, 1⟩ ∧
